@@ -29,7 +29,7 @@ def run_one(m):
         outs = []
         ok = True
         for prop in m['props']:
-            r = subprocess.run([os.path.join(V, 'bin', 'govc'), 'check', '-prop', prop, '-tier', 'quick', '-repo', d, '-verif', V, '-no-evidence'],
+            r = subprocess.run([os.environ.get('GOVC_BIN', os.path.join(V, 'bin', 'govc')), 'check', '-prop', prop, '-tier', 'quick', '-repo', d, '-verif', V, '-no-evidence'],
                                capture_output=True, text=True, env=ENV)
             viol = [l for l in r.stdout.splitlines() if l.startswith('VIOLATION')]
             if m.get('equiv'):
